@@ -18,7 +18,8 @@ RULE = ('case = generated pipeline built as a real chain in a worker process; fo
         'a required input mock or a required parameter must fail at helper construction. non-trivial = T has >=1 input and >=1 parameter; '
         'distinct = hash(task spec, helper options)')
 REQUIRED = ['helpers', 'compared_with_real_chain', 'arbitrary_mock_values', 'missing_input_reported', 'missing_param_reported', 'test_chain_used',
-            'objects_as_definitions', 'mocks_by_class', 'mocks_by_name', 'mocked_tasks_also_listed', 'mocked_tasks_forced_with_recompute']
+            'objects_as_definitions', 'mocks_by_class', 'mocks_by_name', 'mocked_tasks_also_listed', 'mocked_tasks_forced_with_recompute',
+            'helpers_evaluated_after_a_second_instance_was_built', 'results_read_again_after_the_test_chain_was_dropped']
 ASSUMPTIONS = ['every helper gets a fresh base dir (re-using one base dir for helpers with other parameters is outside the statement)',
                'global_vars/placeholders are not used here (the helpers have no global_vars argument)']
 BUDGET = {'quick': 60, 'thorough': 1200}
@@ -48,6 +49,11 @@ def run_one(rng, res: CaseResult):
             st['also_listed'] = rng.randrange(1, 9)
         if st['use_test_chain'] and rng.random() < 0.4:
             st['force_mock'] = True
+        if rng.random() < 0.35:
+            st['decoy'] = rng.choice(['helper', 'and_real_chain'])
+            st['real_root'] = root
+        if st['use_test_chain'] and not st.get('force_mock') and rng.random() < 0.5:
+            st['drop_chain'] = True          # (not after forcing: a forced task is computed again whenever it is asked)
         mode = rng.random()
         expect_fail = None
         if mode < 0.25:
@@ -76,7 +82,7 @@ def run_one(rng, res: CaseResult):
     obs = r['steps']
     if not obs[0]['ok']:
         return
-    witness = {'spec': spec, 'root': root, 'steps': [{k: v for k, v in s_.items() if k != 'root'} for s_ in steps[1:]]}
+    witness = {'spec': spec, 'root': root, 'steps': [{k: v for k, v in s_.items() if k not in ('root', 'real_root')} for s_ in steps[1:]]}
     for (n, st, expect_fail), o in zip(plans, obs[1:]):
         t = ref.tasks[n]
         here = f'helper for {n} ({"TestChain" if st["use_test_chain"] else "create_test_task"}, options {[k for k in st if st[k] is True]})'
@@ -126,6 +132,18 @@ def run_one(rng, res: CaseResult):
             if o['force_mock_vdigest'] != o['expected_vdigest']:
                 res.violate(f'{here}: after forcing a mocked task the tested task yields another value', witness=witness, facts={'tag': 'value_after_force_mock'})
                 continue
+        if o.get('decoy_built'):
+            res.count('helpers_evaluated_after_a_second_instance_was_built')
+        ad = o.get('after_drop')
+        if ad is not None:
+            res.count('results_read_again_after_the_test_chain_was_dropped')
+            if 'exc' in ad:
+                res.violate(f'{here}: after the TestChain object went out of scope, reading the task\'s value again failed: {ad["exc"]}', witness=witness, facts={'tag': 'after_drop'})
+            elif ad['vdigest'] != o['expected_vdigest']:
+                res.violate(f'{here}: after the TestChain object went out of scope the task yields another value', witness=witness, facts={'tag': 'after_drop'})
+            elif ad['had_data'] and ad['new_runs']:
+                res.violate(f'{here}: the task had stored its result, but after the TestChain object went out of scope reading it again executed run '
+                            f'{ad["new_runs"]} more time(s): the stored result was lost with the chain object', witness=witness, facts={'tag': 'after_drop'})
         ran = [x for x in o['helper_runs'][:o.get('n_records_after_value', len(o['helper_runs']))] if x['phase'] == 'start']
         own = [x for x in ran if x['cls'] == t['spec']['cls']]
         foreign = [x['cls'] for x in ran if x['cls'] != t['spec']['cls']]
